@@ -403,8 +403,10 @@ func (r *Run) Finish() {
 			fmt.Printf("VIOLATION property=%s replay=%s\n  sig=%s\n  %s\n",
 				r.Prop, p, f.Sig, strings.ReplaceAll(what, "\n", "\n  "))
 		}
+		runExitHooks()
 		os.Exit(1)
 	}
+	runExitHooks()
 	os.Exit(0)
 }
 
@@ -463,6 +465,18 @@ func (r *Run) Rotate(n int) []int {
 		out[i] = (i + off) % n
 	}
 	return out
+}
+
+var exitHooks []func()
+
+// AtExit registers clean-up work (scratch directories) to run before the
+// process exits through Finish / FinishWorker.
+func AtExit(f func()) { exitHooks = append(exitHooks, f) }
+
+func runExitHooks() {
+	for _, f := range exitHooks {
+		f()
+	}
 }
 
 // Short trims a string for inclusion in messages.
@@ -533,6 +547,7 @@ func (r *Run) FinishWorker() {
 	os.Stdout.Write([]byte("\nVERIF-WORKER-DUMP "))
 	os.Stdout.Write(b)
 	os.Stdout.Write([]byte("\n"))
+	runExitHooks()
 	os.Exit(0)
 }
 
